@@ -341,3 +341,298 @@ Proof.
       * rewrite Ttg; exact Ctg.
       * rewrite Tps; intro W. destruct (Cw W) as (W1 & W2). congruence.
 Qed.
+
+(** ---- every step of the model satisfies every clause, and keeps the invariant ---- *)
+Ltac osimpl :=
+  cbn [obs_of o_out o_id o_pending o_ptimeout o_active o_hasconn o_flag o_target o_next
+       o_probing o_nprobes o_conn].
+Ltac osimpl_in H :=
+  cbn [obs_of o_out o_id o_pending o_ptimeout o_active o_hasconn o_flag o_target o_next
+       o_probing o_nprobes o_conn] in H.
+
+Definition all_true (l : list bool) : Prop := forallb (fun b => b) l = true.
+
+Lemma first_bad_all_true : forall l i, all_true l -> first_bad (fun b : bool => b) l i = 0%N.
+Proof.
+  induction l as [|b t IH]; intros i H; cbn; auto.
+  unfold all_true in H; cbn in H. apply andb_true_iff in H as [H1 H2]. rewrite H1. apply IH; exact H2.
+Qed.
+
+Lemma range_all_intro : forall k i f,
+  (forall j, i <= j < i + Z.of_nat k -> f j = true) -> range_all k i f = true.
+Proof.
+  induction k as [|k IH]; intros i f H; cbn [range_all]; auto.
+  rewrite H by lia. rewrite IH; auto. intros j Hj. apply H. lia.
+Qed.
+
+Lemma pkts_ok_forallb : forall id l, pkts_ok id l ->
+  forallb (fun p => ((pk_kind p =? K_REG1) || (pk_kind p =? K_REG2)) && (pk_id p =? id)) l = true.
+Proof.
+  induction 1 as [|p l [Hk Hi] H IH]; cbn [forallb]; auto.
+  rewrite IH, andb_true_r. rewrite Hi, Z.eqb_refl, andb_true_r. destruct Hk as [-> | ->]; reflexivity.
+Qed.
+
+Definition StepOK (n : Z) (g : ghost) (pre : obs) (o : op) (s' : st) (out : list pkt) : Prop :=
+  all_true (clauses n g pre o (obs_of s' out)) /\ Inv n (ghost_next g pre o (obs_of s' out)) s'.
+
+Lemma tick_ok : forall n g s outp now amb due s' out,
+  Inv n g s -> 0 <= now -> tick s now amb due = (s', out) ->
+  StepOK n g (obs_of s outp) (Tick now amb due) s' out.
+Proof.
+  intros n g s outp now amb due s' out I Hnow T.
+  pose proof (tick_facts _ _ _ _ _ _ _ _ I Hnow T) as F.
+  pose proof (expired_texp n g s now amb due I) as Hexp.
+  pose proof (inv_out _ _ _ I) as Iout. pose proof (inv_owed _ _ _ I) as Iowed.
+  destruct F as [Fid Fpk Fconn Fact Fflag Fprob Fcnt Freg1 Ftgt Fwait].
+  assert (Hlen : blen (s_conn s') = n).
+  { unfold blen. rewrite (conn_drop_length _ _ Fconn). apply (inv_len _ _ _ I). }
+  (* clauses that do not depend on which REG1 case we are in *)
+  assert (C3 : cl3 g (obs_of s outp) (Tick now amb due) (obs_of s' out) = true).
+  { unfold cl3, accepted. cbn [is_reg2 andb]. osimpl. rewrite Fid. apply Z.eqb_refl. }
+  assert (C4 : cl4 n g (Tick now amb due) (obs_of s' out) = true).
+  { unfold cl4. osimpl. apply range_all_intro. intros k Hk. rewrite Z2Nat.id in Hk by (rewrite <- Hlen; apply blen_nonneg).
+    rewrite reg2_count_eq. specialize (Fcnt k ltac:(lia)). rewrite Iowed.
+    destruct (r_flag (s_reg s)), (memz k due); cbn [Z.b2z] in Fcnt; lia. }
+  assert (C5 : cl5 (obs_of s' out) = true).
+  { unfold cl5. osimpl. rewrite Fid. apply pkts_ok_forallb; exact Fpk. }
+  assert (C6 : cl6 (obs_of s outp) (Tick now amb due) (obs_of s' out) = true).
+  { unfold cl6. osimpl. apply conn_ok_drop; exact Fconn. }
+  unfold StepOK, clauses, all_true. cbn [forallb]. rewrite C3, C4, C5, C6.
+  unfold cl1, cl2, cl7, cl8, cl9, no_reg1, out1, ghost_next, accepted, out1. cbn [is_tick is_regerr is_reg2 negb andb orb op_now].
+  osimpl. rewrite !reg1_dsts_eq, Hexp.
+  destruct Freg1 as [(R1 & Fp & Fpt & Ftn)|(j & R1 & Hj & Etx & Fp & Ftg & Fpt & Hcase)]; rewrite R1.
+  - (* no REG1 in this pass *)
+    split.
+    + cbn [forallb]. destruct (texp (s_reg s) now) eqn:Etx; cbn [negb orb andb]; auto.
+      rewrite Fp. reflexivity.
+    + constructor; cbn [g_out g_owed g_free].
+      * exact Hlen.
+      * destruct (texp (s_reg s) now) eqn:Etx; [exact Fp|].
+        destruct (g_out g) as [[j t]|].
+        -- destruct Iout as (Ip & Ipt & It). rewrite Ip in Fp. split; [exact Fp|]. split; [|exact It].
+           destruct Fpt as [Fpt _]; [congruence|]. congruence.
+        -- congruence.
+      * intros j Hj. rewrite Hj in Fp. destruct (texp (s_reg s) now); [discriminate|].
+        destruct Fpt as [_ Ft]; [congruence|]. rewrite Ft.
+        apply (inv_pend _ _ _ I). congruence.
+      * exact Ftgt.
+      * intro W. destruct (Fwait W) as (W1 & W2 & W3). split; [auto|split; [auto|]].
+        apply (inv_wait _ _ _ I W1).
+      * exact Fprob.
+      * intro A. rewrite Fact in A. apply count_true_zero; exact A.
+      * symmetry; exact Fflag.
+  - (* one REG1, to j *)
+    rewrite Etx. split.
+    + cbn [forallb negb orb andb]. rewrite andb_true_r.
+      destruct Hcase as [Hp|(Hp & Hnc)].
+      * destruct (g_out g) as [[j' t]|]; [|congruence]. destruct Iout as (Ip & _).
+        assert (j' = j) by congruence; subst j'. cbn [out_on]. rewrite Z.eqb_refl. reflexivity.
+      * destruct (g_out g) as [[j' t]|]; [destruct Iout; congruence|].
+        apply none_connected_iff in Hnc. rewrite Hnc, orb_true_r. reflexivity.
+    + constructor; cbn [g_out g_owed g_free].
+      * exact Hlen.
+      * auto.
+      * intros j0 Hj0. assert (j0 = j) by congruence; subst j0. auto.
+      * exact Ftgt.
+      * intro W. destruct (Fwait W) as (_ & W2 & _). congruence.
+      * exact Fprob.
+      * intro A. rewrite Fact in A. apply count_true_zero; exact A.
+      * symmetry; exact Fflag.
+Qed.
+
+Lemma g_out_none : forall n g s, Inv n g s -> r_pending (s_reg s) = None -> g_out g = None.
+Proof.
+  intros n g s I H. pose proof (inv_out _ _ _ I) as Io.
+  destruct (g_out g) as [[j t]|]; auto. destruct Io; congruence.
+Qed.
+
+Lemma g_out_some : forall n g s j, Inv n g s -> r_pending (s_reg s) = Some j ->
+  exists t, g_out g = Some (j, t) /\ r_ptimeout (s_reg s) = t + REG2_WAIT_MS /\ 0 <= t.
+Proof.
+  intros n g s j I H. pose proof (inv_out _ _ _ I) as Io.
+  destruct (g_out g) as [[j' t]|]; [|congruence]. destruct Io as (A & B & C).
+  exists t. assert (j' = j) by congruence; subst; auto.
+Qed.
+
+Lemma ngp_ok : forall n g s outp i now s' out,
+  Inv n g s -> 0 <= i < n -> 0 <= now -> step true s (Ngp i now) = (s', out) ->
+  StepOK n g (obs_of s outp) (Ngp i now) s' out.
+Proof.
+  intros n g [r conn] outp i now s' out I Hi Hnow S.
+  pose proof (inv_wait _ _ _ I) as Iwait. pose proof (inv_active _ _ _ I) as Iact.
+  cbn [step s_reg s_conn] in *. unfold handle_reg_ngp in S.
+  unfold StepOK, clauses, all_true, cl1, cl2, cl3, cl4, cl5, cl6, cl7, cl8, cl9, no_reg1, out1, expired,
+    ghost_next, accepted, out1, expired. cbn [is_tick is_regerr is_reg2 negb andb orb op_now].
+  destruct (pstate_eqb (r_pstate r) PWaiting) eqn:Ew.
+  - (* a probe response *)
+    assert (W : r_pstate r = PWaiting) by (destruct (r_pstate r); cbn in Ew; congruence).
+    destruct (Iwait W) as (Wp & Wt & Wn).
+    unfold handle_probe_response, reg1_if_ngp_immediate in S. rewrite Ew in S. rsimpl_in S.
+    rewrite Wt in S. cbn [opt_is] in S. rewrite !andb_false_r in S. cbn [andb] in S.
+    inversion S; subst s' out; clear S. osimpl. rsimpl. cbn [forallb reg1_dsts filter map].
+    rewrite Z.eqb_refl. rewrite conn_ok_refl. unfold is_probing. rewrite Ew. cbn [negb andb orb].
+    rewrite !andb_false_r. cbn [negb orb andb]. split; [reflexivity|].
+    destruct I as [I1 I2 I3 I4 I5 I6 I7 I8]. cbn [s_reg s_conn] in *.
+    constructor; cbn [g_out g_owed g_free s_reg s_conn]; rsimpl; auto.
+    + intros j Hj. rewrite Wp in Hj. discriminate.
+    + intros; discriminate.
+    + apply probe_respond_in; auto.
+    + rewrite orb_false_r; auto.
+  - destruct ((r_active r =? 0) && is_none (r_pending r)) eqn:Ec.
+    + (* accepted as REG1 target, answered at once *)
+      apply andb_true_iff in Ec as [Ea Ep]. apply is_none_true in Ep.
+      unfold reg1_if_ngp_immediate in S. rsimpl_in S. rewrite Ea, Ep in S. cbn [is_none opt_is andb] in S.
+      rewrite Z.eqb_refl, Z.leb_refl in S. cbn [andb build_reg1_for] in S. rsimpl_in S.
+      inversion S; subst s' out; clear S. osimpl. rsimpl.
+      cbn [forallb reg1_dsts filter map pk_kind pk_dst pk_id fst snd]. change (K_REG1 =? K_REG1) with true.
+      change (K_REG1 =? K_REG2) with false. cbn [negb andb orb map pk_dst fst snd forallb].
+      rewrite (g_out_none _ _ _ I Ep). rewrite !Z.eqb_refl. rewrite conn_ok_refl.
+      assert (Hnc : none_connected conn = true) by (apply none_connected_iff, Iact; lia).
+      rewrite Hnc. cbn [negb andb orb list_eqb]. rewrite Z.eqb_refl. cbn [andb]. rewrite !orb_true_r.
+      split; [reflexivity|].
+      destruct I as [I1 I2 I3 I4 I5 I6 I7 I8]. cbn [s_reg s_conn] in *.
+      constructor; cbn [g_out g_owed g_free s_reg s_conn]; rsimpl; auto.
+      * intros j Hj; inversion Hj; subst; auto.
+      * intros j Hj; inversion Hj; subst; auto.
+      * intro W. rewrite W in Ew. discriminate.
+      * rewrite orb_false_r; auto.
+    + (* ignored *)
+      unfold reg1_if_ngp_immediate in S. rewrite Ec in S. cbn [andb] in S.
+      inversion S; subst s' out; clear S. osimpl. rsimpl. cbn [forallb reg1_dsts filter map].
+      rewrite Z.eqb_refl, conn_ok_refl. cbn [negb andb orb].
+      assert (C9 : negb (g_free g && is_none (g_out g) && (r_active r =? 0) && none_connected conn && negb (is_probing r)) || list_eqb Z.eqb [] [i] = true).
+      { apply orb_true_iff; left. apply negb_true_iff.
+        destruct (r_pending r) as [j|] eqn:Ep.
+        - destruct (g_out_some _ _ _ _ I Ep) as (t & Eg & _). rewrite Eg. cbn [is_none]. rewrite andb_false_r. reflexivity.
+        - cbn [is_none] in Ec. rewrite andb_true_r in Ec. rewrite Ec. rewrite !andb_false_r. reflexivity. }
+      rewrite C9. split; [reflexivity|].
+      destruct I as [I1 I2 I3 I4 I5 I6 I7 I8]. cbn [s_reg s_conn] in *.
+      constructor; cbn [g_out g_owed g_free s_reg s_conn]; rsimpl; auto.
+      rewrite orb_false_r; auto.
+Qed.
+
+Lemma reg2_ok : forall n g s outp i len tag now s' out,
+  Inv n g s -> 0 <= i < n -> 0 <= now -> step true s (Reg2 i len tag now) = (s', out) ->
+  StepOK n g (obs_of s outp) (Reg2 i len tag now) s' out.
+Proof.
+  intros n g [r conn] outp i len tag now s' out I Hi Hnow S.
+  cbn [step s_reg s_conn] in *. unfold handle_reg2 in S.
+  unfold StepOK, clauses, all_true, cl1, cl2, cl3, cl4, cl5, cl6, cl7, cl8, cl9, no_reg1, out1, expired,
+    ghost_next, accepted, out1, expired. cbn [is_tick is_regerr is_reg2 negb andb orb op_now].
+  destruct (len <? REG2_MIN_LEN) eqn:El; [|destruct (opt_is (r_pending r) i) eqn:Ep].
+  - (* too short *)
+    inversion S; subst s' out; clear S. osimpl. rsimpl. cbn [forallb reg1_dsts filter map].
+    rewrite Z.eqb_refl, conn_ok_refl.
+    replace (is_some (r_pending r) && is_none (r_pending r)) with false by (destruct (r_pending r); reflexivity).
+    rewrite ?Z.eqb_refl. cbn [orb]. split; [reflexivity|].
+    destruct I as [I1 I2 I3 I4 I5 I6 I7 I8]. cbn [s_reg s_conn] in *.
+    constructor; cbn [g_out g_owed g_free s_reg s_conn]; rsimpl; auto. rewrite orb_false_r; auto.
+  - (* accepted *)
+    apply opt_is_true in Ep. inversion S; subst s' out; clear S. osimpl. rsimpl.
+    cbn [forallb reg1_dsts filter map]. rewrite Ep. cbn [is_some is_none negb andb orb].
+    destruct (g_out_some _ _ _ _ I Ep) as (t & Eg & _). rewrite Eg. cbn [out_on].
+    rewrite !Z.eqb_refl, conn_ok_refl. replace (REG2_MIN_LEN <=? len) with true by lia.
+    split; [reflexivity|].
+    destruct I as [I1 I2 I3 I4 I5 I6 I7 I8]. cbn [s_reg s_conn] in *.
+    constructor; cbn [g_out g_owed g_free s_reg s_conn]; rsimpl; auto; try (intros; discriminate).
+    + intro W. destruct (I5 W) as (? & ? & ?). congruence.
+    + rewrite orb_true_r; reflexivity.
+  - (* not from the awaited uplink *)
+    inversion S; subst s' out; clear S. osimpl. rsimpl. cbn [forallb reg1_dsts filter map].
+    rewrite Z.eqb_refl, conn_ok_refl.
+    replace (is_some (r_pending r) && is_none (r_pending r)) with false by (destruct (r_pending r); reflexivity).
+    rewrite ?Z.eqb_refl. cbn [orb]. split; [reflexivity|].
+    destruct I as [I1 I2 I3 I4 I5 I6 I7 I8]. cbn [s_reg s_conn] in *.
+    constructor; cbn [g_out g_owed g_free s_reg s_conn]; rsimpl; auto. rewrite orb_false_r; auto.
+Qed.
+
+Lemma blen_set_nth : forall l i v, blen (set_nth l i v) = blen l.
+Proof. intros; unfold blen; rewrite set_nth_length; reflexivity. Qed.
+
+Lemma reg3_ok : forall n g s outp i now s' out,
+  Inv n g s -> 0 <= i < n -> 0 <= now -> step true s (Reg3 i now) = (s', out) ->
+  StepOK n g (obs_of s outp) (Reg3 i now) s' out.
+Proof.
+  intros n g [r conn] outp i now s' out I Hi Hnow S.
+  cbn [step s_reg s_conn] in *. unfold handle_reg3 in S.
+  unfold StepOK, clauses, all_true, cl1, cl2, cl3, cl4, cl5, cl6, cl7, cl8, cl9, no_reg1, out1, expired,
+    ghost_next, accepted, out1, expired. cbn [is_tick is_regerr is_reg2 negb andb orb op_now].
+  inversion S; subst s' out; clear S. osimpl. rsimpl. cbn [forallb reg1_dsts filter map].
+  rewrite Z.eqb_refl. pose proof (conn_ok_set_true conn i 0 ltac:(lia)) as C6. cbn [Z.add] in C6. rewrite C6.
+  split; [reflexivity|].
+  destruct I as [I1 I2 I3 I4 I5 I6 I7 I8]. cbn [s_reg s_conn] in *.
+  constructor; cbn [g_out g_owed g_free s_reg s_conn]; rsimpl; auto.
+  - rewrite blen_set_nth; auto.
+  - intro A. lia.
+  - rewrite orb_false_r; auto.
+Qed.
+
+Lemma regerr_ok : forall n g s outp i now s' out,
+  Inv n g s -> 0 <= i < n -> 0 <= now -> step true s (RegErr i now) = (s', out) ->
+  StepOK n g (obs_of s outp) (RegErr i now) s' out.
+Proof.
+  intros n g [r conn] outp i now s' out I Hi Hnow S.
+  cbn [step s_reg s_conn] in *. unfold handle_reg_err in S.
+  unfold StepOK, clauses, all_true, cl1, cl2, cl3, cl4, cl5, cl6, cl7, cl8, cl9, no_reg1, out1, expired,
+    ghost_next, accepted, out1, expired. cbn [is_tick is_regerr is_reg2 negb andb orb op_now].
+  inversion S; subst s' out; clear S. osimpl. rsimpl. cbn [forallb reg1_dsts filter map is_none].
+  rewrite Z.eqb_refl, conn_ok_set_false.
+  split; [reflexivity|].
+  destruct I as [I1 I2 I3 I4 I5 I6 I7 I8]. cbn [s_reg s_conn] in *.
+  constructor; cbn [g_out g_owed g_free s_reg s_conn]; rsimpl; auto; try (intros; discriminate).
+  - rewrite blen_set_nth; auto.
+  - intro W. destruct (I5 W) as (? & ? & ?). auto.
+  - intro A. apply none_conn_set_false; auto.
+  - rewrite orb_false_r; auto.
+Qed.
+
+Lemma step_ok : forall n g s outp o s' out,
+  Inv n g s -> wf_op n o -> step true s o = (s', out) -> StepOK n g (obs_of s outp) o s' out.
+Proof.
+  intros n g s outp o s' out I W S. destruct o as [i t|i l tg t|i t|i t|t a d]; cbn [wf_op] in W.
+  - destruct W; eapply ngp_ok; eauto.
+  - destruct W; eapply reg2_ok; eauto.
+  - destruct W; eapply reg3_ok; eauto.
+  - destruct W; eapply regerr_ok; eauto.
+  - eapply tick_ok; eauto.
+Qed.
+
+Lemma mon_run_model : forall n ops g s outp,
+  Inv n g s -> Forall (wf_op n) ops ->
+  mon_run n g (obs_of s outp) ops (run_from true s ops) = 0%N.
+Proof.
+  induction ops as [|o ops IH]; intros g s outp I W; cbn [run_from mon_run]; auto.
+  inversion W as [|? ? Wo Wr]; subst.
+  destruct (step true s o) as [s' out] eqn:S. cbn [mon_run]. unfold mon_step.
+  destruct (step_ok n g s outp o s' out I Wo S) as [A I'].
+  rewrite (first_bad_all_true _ 0%N A). cbn [N.eqb]. apply IH; auto.
+Qed.
+
+Lemma repeat_blen : forall n, 0 <= n -> blen (repeat false (Z.to_nat n)) = n.
+Proof. intros. unfold blen. rewrite repeat_length. lia. Qed.
+
+Lemma start_inv : forall n id0 pid probe, 0 <= n -> Inv n g0 (fst (start n id0 pid probe)).
+Proof.
+  intros n id0 pid probe Hn. unfold start. destruct probe as [t|].
+  - unfold start_probing, reg_new. rsimpl. cbn [pstate_eqb negb orb Z.ltb Z.compare].
+    destruct (probe_all (Z.to_nat n) 0 pid t) as [ps rs] eqn:E.
+    destruct (probe_all_spec _ _ _ _ _ _ E) as (L & F & _).
+    assert (Fin : probes_in n rs).
+    { eapply Forall_impl; [|exact F]. cbn. intros p Hp. lia. }
+    destruct rs as [|p rs']; cbn [fst]; constructor; cbn [g0 g_out g_owed s_reg s_conn]; rsimpl;
+      auto using repeat_blen, none_conn_repeat; try (intros; discriminate).
+    intros _. split; [auto|split; [auto|]]. cbn [length] in L. lia.
+  - unfold init, reg_new. cbn [fst]. constructor; cbn [g0 g_out g_owed s_reg s_conn]; rsimpl;
+      auto using repeat_blen, none_conn_repeat; try (intros; discriminate). constructor.
+Qed.
+
+Theorem model_ok : forall n id0 pid probe ops,
+  wf_ops n ops = true -> ok_C07 n ops (run true n id0 pid probe ops) = true.
+Proof.
+  intros n id0 pid probe ops W. unfold wf_ops in W. apply andb_true_iff in W as [Hn W].
+  assert (Wf : Forall (wf_op n) ops).
+  { rewrite forallb_forall in W. apply Forall_forall. intros o Ho. apply wf_opb_iff, W, Ho. }
+  unfold ok_C07, mon_C07, run. pose proof (start_inv n id0 pid probe ltac:(lia)) as I.
+  destruct (start n id0 pid probe) as [s0 out0]. cbn [fst snd] in *.
+  rewrite (mon_run_model n ops g0 s0 out0 I Wf). reflexivity.
+Qed.
